@@ -1257,12 +1257,12 @@ func (w *gmWalk) cleanup() {
 func gmCaseCount(e vEnv) int64 {
 	if e.Prop == "C16" {
 		if e.Tier == "thorough" {
-			return 4000
+			return 10000
 		}
 		return 160
 	}
 	if e.Tier == "thorough" {
-		return 1000
+		return 3000
 	}
 	return 48
 }
@@ -1323,7 +1323,7 @@ func TestVerifRaceGME(t *testing.T) {
 	runs := int64(3)
 	budget := 1500 * time.Millisecond
 	if env.Tier == "thorough" {
-		runs, budget = 12, 3*time.Second
+		runs, budget = 48, 3*time.Second
 	}
 	for _, idx := range env.vCases(runs) {
 		w := gmNewWalk(vNewRand(env.Seed, "race-gme", idx), idx)
